@@ -113,6 +113,22 @@ class Check(PropertyCheck):
             o2 = sched.run_program(lambda: vm.call(spec), lim, rng, complete_prob=rng.choice([0.0, 0.3]))
             o2["limits"], o2["spec"] = lim, spec
             runs.append(("failing-holder", o2))
+        # jobs with limits rejected BEFORE they reach an executor (unknown executor name), the error caught, while other jobs
+        # contend for the same resource: the units must come back and the waiters be woken (seeded change C09d)
+        for i in range(10 if self.tier == "quick" else 150):
+            lim = {"r0": 1, "r1": 1}
+            kids = []
+            for j in range(rng.randint(2, 5)):
+                dem = {"limits": {"r0": 1}}
+                if rng.random() < 0.4 or j == 0:
+                    bad_leaf = (f"qx{i}_{j}", "leaf", j, (), {**dem, "executor": "no_such_executor"})
+                    kids.append((f"qc{i}_{j}", "catchany", 0, (bad_leaf,), None))
+                else:
+                    kids.append((f"ql{i}_{j}", "leaf", j, (), dem))
+            spec = (f"qs{i}", rng.choice(["list", "seq"]), 0, tuple(kids), None)
+            o2 = sched.run_program(lambda: vm.call(spec), lim, rng, complete_prob=rng.choice([0.0, 0.3]))
+            o2["limits"], o2["spec"] = lim, spec
+            runs.append(("pre-executor-reject", o2))
         # a caught failure lets the root resolve while siblings of the failed call are still in flight
         spec = ("er_root", "catch", 1, (("er_l", "list", 0, (("er_b", "raise", "boom", (), None), ("er_s1", "leaf", 1, (), None),
                                                            ("er_s2", "leaf", 2, (), None)), None),), None)
